@@ -15,17 +15,21 @@ pub(crate) enum Status {
 #[derive(Debug)]
 pub struct MultiPattern {
     cols: Vec<(Pattern, Status)>,
+    /// the case matching and normalization settings of the last `reparse` of each column
+    settings: Vec<Option<(CaseMatching, Normalization)>>,
 }
 
 impl Clone for MultiPattern {
     fn clone(&self) -> Self {
         Self {
             cols: self.cols.clone(),
+            settings: self.settings.clone(),
         }
     }
 
     fn clone_from(&mut self, source: &Self) {
-        self.cols.clone_from(&source.cols)
+        self.cols.clone_from(&source.cols);
+        self.settings.clone_from(&source.settings)
     }
 }
 
@@ -34,6 +38,7 @@ impl MultiPattern {
     pub fn new(columns: usize) -> Self {
         Self {
             cols: vec![Default::default(); columns],
+            settings: vec![None; columns],
         }
     }
 
@@ -50,7 +55,14 @@ impl MultiPattern {
         append: bool,
     ) {
         let old_status = self.cols[column].1;
+        // the same text can match more items than before if case matching or normalization
+        // changed (`F` case sensitive -> `F` ignoring case), old matches can only be reused
+        // if the text was parsed with the same settings
+        let same_settings = self.settings[column]
+            .map_or(true, |settings| settings == (case_matching, normalization));
+        self.settings[column] = Some((case_matching, normalization));
         if append
+            && same_settings
             && old_status != Status::Rescore
             && self.cols[column]
                 .0
